@@ -1021,9 +1021,17 @@ class ComputeGraph(MultiDiGraph):
             lambda e: (lambda s: s * (1 - s))(Function('sigmoid')(e.expr.args[0]))
         )
         expr = expr.replace(
-            lambda e: isinstance(e, Derivative) and e.expr.func.__name__ == 'absv',
+            lambda e: isinstance(e, Derivative) and e.expr.func.__name__ in ('absv', 'abs'),
             lambda e: Function('sign')(e.expr.args[0])
         )
+        # the inverse trigonometric functions go by their numpy names (arctan, ...), which sympy does not know
+        for fname, rule in (('arctan', lambda x: 1 / (1 + x ** 2)),
+                            ('arcsin', lambda x: 1 / sp.sqrt(1 - x ** 2)),
+                            ('arccos', lambda x: -1 / sp.sqrt(1 - x ** 2))):
+            expr = expr.replace(
+                lambda e, fname=fname: isinstance(e, Derivative) and e.expr.func.__name__ == fname,
+                lambda e, rule=rule: rule(e.expr.args[0])
+            )
         # Sympy wraps chain-rule applications of identity/sigmoid/absv in
         # Subs(Derivative(f(_xi), _xi), _xi, real_arg) because these functions
         # have no fdiff defined.  Once the inner Derivative has been replaced
